@@ -29,6 +29,7 @@ var lifeScenarios = []string{
 	"closenow-reader-blocked", "closenow-writer-blocked", "closenow-idle", "close-reader-blocked-echo",
 	"closeread-data-echo", "closeread-data-silent", "closeread-peer-close", "closeread-then-closenow",
 	"close-unmarshalable-reason", "close-invalid-code", "close-unmarshalable-reason-closeread",
+	"emptyfin-read-then-cancel", "closeread-twice-closenow", "closeread-twice-data", "closeread-derived-contexts-closenow",
 	"peer-close-then-close", "proto-error-then-close", "transport-failure-then-close", "abandoned-reader-close", "abandoned-writer-close", "netconn-close",
 }
 
@@ -62,15 +63,32 @@ func genLife(r *Rng, tier string, stat func(string)) []string {
 }
 
 type lifeEnv struct {
-	c    *websocket.Conn
-	raw  *rawEnd
-	peer *autoPeer
-	role string
-	res  []string
-	dur  time.Duration
+	c          *websocket.Conn
+	raw        *rawEnd
+	peer       *autoPeer
+	role       string
+	res        []string
+	dur        time.Duration
+	checkRearm bool
+	armBad     string
 }
 
 func (e *lifeEnv) step(err error) {
+	if err == nil && e.checkRearm && e.armBad == "" {
+		// C10: when a call has returned nil, neither side may still be armed with the call's context: the last arm event of each
+		// side must be the re-arm with context.Background()
+		last := map[int]int{}
+		for _, ev := range websocket.VerifTrace(e.c) {
+			if ev.Ev == websocket.VerifEvArm {
+				last[ev.A] = ev.B
+			}
+		}
+		for side, b := range last {
+			if b != 0 {
+				e.armBad = fmt.Sprintf("still-armed-after-success:side%d:call%d", side, len(e.res))
+			}
+		}
+	}
 	if err == nil {
 		e.res = append(e.res, "ok")
 	} else {
@@ -103,6 +121,7 @@ func runLife(kv map[string]string) string {
 		echo = false
 	}
 	e := &lifeEnv{c: c, raw: raw, role: role}
+	e.checkRearm = strings.HasSuffix(scen, "-then-cancel") && scen != "ping-then-cancel"
 	if scen != "close-peer-never-reads" && scen != "cancel-during-write" && scen != "closenow-writer-blocked" {
 		e.peer = startAutoPeer(raw, role, echo)
 	}
@@ -162,11 +181,16 @@ func runLife(kv map[string]string) string {
 		time.Sleep(60 * time.Millisecond)
 		e.step(c.Write(bg, websocket.MessageText, []byte("two")))
 		closedObs = closedAfter()
-	case "read-then-cancel", "fragread-then-cancel", "compressed-read-then-cancel":
+	case "read-then-cancel", "fragread-then-cancel", "compressed-read-then-cancel", "emptyfin-read-then-cancel":
 		ctx1, cancel1 := context.WithCancel(bg)
 		switch scen {
 		case "read-then-cancel":
 			send(rawFrame{Fin: true, Opcode: 1, Payload: []byte("hello")})
+		case "emptyfin-read-then-cancel":
+			// the shape of every streamed message: data in non-final frames, then an EMPTY final continuation frame
+			send(rawFrame{Fin: false, Opcode: 1, Payload: []byte("abc")})
+			send(rawFrame{Fin: false, Opcode: 0, Payload: []byte("def")})
+			send(rawFrame{Fin: true, Opcode: 0, Payload: nil})
 		case "fragread-then-cancel":
 			send(rawFrame{Fin: false, Opcode: 2, Payload: GenBytes("rand", 5000, 1)})
 			send(rawFrame{Fin: true, Opcode: 9, Payload: []byte("p")})
@@ -346,6 +370,41 @@ func runLife(kv map[string]string) string {
 		raw.Stall(false)
 	case "closenow-idle":
 		measure(func() error { return c.CloseNow() })
+	case "closeread-twice-closenow", "closeread-twice-data":
+		// CloseRead is idempotent: the context of a SECOND call must be cancelled when the connection closes, too
+		c.CloseRead(bg)
+		ctxB := c.CloseRead(bg)
+		t0 := time.Now()
+		if scen == "closeread-twice-data" {
+			send(rawFrame{Fin: true, Opcode: 1, Payload: []byte("unexpected")})
+		} else {
+			go func() { time.Sleep(30 * time.Millisecond); c.CloseNow() }()
+		}
+		select {
+		case <-ctxB.Done():
+			e.dur = time.Since(t0)
+			crDone = "1"
+			e.res = append(e.res, "ok")
+		case <-time.After(12 * time.Second):
+			crDone = "0"
+			e.res = append(e.res, "blocked")
+		}
+		c.CloseNow()
+	case "closeread-derived-contexts-closenow":
+		// many contexts hang off the one CloseRead returned: cancelling it takes the goroutine a while, and CloseNow must not
+		// return before the goroutine is through
+		ctxR := c.CloseRead(bg)
+		var cancels []context.CancelFunc
+		for i := 0; i < 300000; i++ {
+			_, cf := context.WithCancel(ctxR)
+			cancels = append(cancels, cf)
+		}
+		measure(func() error { return c.CloseNow() })
+		defer func() {
+			for _, cf := range cancels {
+				cf()
+			}
+		}()
 	case "closeread-data-echo", "closeread-data-silent", "closeread-peer-close", "closeread-then-closenow":
 		ctx := c.CloseRead(bg)
 		t0 := time.Now()
@@ -493,6 +552,9 @@ func runLife(kv map[string]string) string {
 	}
 	if gorAtReturn != "" {
 		gor = gorAtReturn
+	}
+	if e.armBad != "" && armBad == "" {
+		armBad = e.armBad
 	}
 	if armBad == "" {
 		armBad = "ok"
